@@ -3,26 +3,30 @@ import os, json
 from . import common as C
 from . import par
 
-GRAPHS = ["chain", "diamond", "missingleaf", "badleaf"]
+GRAPHS = ["chain", "diamond", "missingleaf", "badleaf", "binaryleaf"]
 PROGS = ["dA_lA", "dA_lB", "dA_dB_lA_lA", "dD_dB_lD_lD", "lA_lA", "lC_dA_lC"]
-MC = {"quick": [("chain", "dA_lA"), ("diamond", "dA_lA"), ("chain", "dD_dB_lD_lD"), ("missingleaf", "dD_dB_lD_lD"), ("badleaf", "lC_dA_lC"), ("diamond", "lC_dA_lC")],
-      "thorough": [(g, p) for g in GRAPHS for p in PROGS]}
+RPROGS = ["lA_rA_lA", "dA_rA_lA_lA", "lC_rC_lC_lC", "dB_rA_lB_lA"]        # with refresh (terminology loader only)
+CACHES = ["empty", "warm", "stale"]
+MC = {"quick": [("chain", "dA_lA", "empty"), ("diamond", "dA_lA", "warm"), ("chain", "dD_dB_lD_lD", "stale"), ("missingleaf", "dD_dB_lD_lD", "empty"),
+                ("badleaf", "lC_dA_lC", "warm"), ("diamond", "lC_dA_lC", "empty"), ("chain", "dA_rA_lA_lA", "empty"), ("missingleaf", "lC_rC_lC_lC", "stale"),
+                ("chain", "dB_rA_lB_lA", "warm")],
+      "thorough": [(g, p, c) for g in GRAPHS for p in PROGS + RPROGS for c in CACHES]}
 
 
 def model_check(tier):
     """every interleaving of the model against the contract (known error classes tolerated so that the
     search continues past them)"""
     runs = []
-    for g, p in MC[tier]:
-        env = {"GRAPH": g, "PROG": p, "KNOWN": "known"}
-        gen = C.TlcGen("MC_Loader.tla", "MC_Loader.cfg", "loader_mc_%s_%s" % (g, p), workers=8, env=env, timeout=900)
+    for g, p, c in MC[tier]:
+        env = {"GRAPH": g, "PROG": p, "KNOWN": "known", "CACHE": c}
+        gen = C.TlcGen("MC_Loader.tla", "MC_Loader.cfg", "loader_mc_%s_%s_%s" % (g, p, c), workers=8, env=env, timeout=900)
         try:
             gen.all_lines()
-            runs.append({"cfg": "MC_Loader.cfg GRAPH=%s PROG=%s" % (g, p), "cmd": gen.describe(), "states": gen.stats["distinct"],
+            runs.append({"cfg": "MC_Loader.cfg GRAPH=%s PROG=%s CACHE=%s" % (g, p, c), "cmd": gen.describe(), "states": gen.stats["distinct"],
                          "transitions": gen.stats["generated"], "wall_s": round(gen.wall, 1), "result": "all invariants hold"})
         except C.MachineryError as e:
             viol = [l for l in gen.log if "is violated" in l]
-            runs.append({"cfg": "MC_Loader.cfg GRAPH=%s PROG=%s" % (g, p), "cmd": gen.describe(), "states": gen.stats.get("distinct", 1),
+            runs.append({"cfg": "MC_Loader.cfg GRAPH=%s PROG=%s CACHE=%s" % (g, p, c), "cmd": gen.describe(), "states": gen.stats.get("distinct", 1),
                          "transitions": gen.stats.get("generated", 1), "wall_s": 0, "result": "; ".join(viol) or "error"})
             if not viol:
                 raise
@@ -33,8 +37,14 @@ def observe(tier):
     d = C.fresh_dir(os.path.join(C.BUILD, "loader"))
     tlc = model_check(tier)
     k = 1 if tier == "quick" else 2
-    cases = [[{"graph": g, "prog": p, "max_preempt": k, "sample": 40 if tier == "quick" else 200, "variant": v}]
+    smp = 40 if tier == "quick" else 200
+    cases = [[{"graph": g, "prog": p, "max_preempt": k, "sample": smp, "variant": v, "cache": "empty"}]
              for v in ("terminology", "template") for g in GRAPHS for p in PROGS]
+    # refresh and the warm / stale download cache
+    cases += [[{"graph": g, "prog": p, "max_preempt": k, "sample": smp, "variant": "terminology", "cache": c}]
+              for g in GRAPHS for p in RPROGS for c in CACHES]
+    cases += [[{"graph": g, "prog": p, "max_preempt": k, "sample": smp, "variant": v, "cache": c}]
+              for v in ("terminology", "template") for g in GRAPHS for p in (PROGS if tier == "thorough" else ["dA_lA", "lC_dA_lC"]) for c in ("warm", "stale")]
     n, files = par.replay_stream(cases, "harness.loader", os.path.join(d, "S"), shard=4000)
     return {"judge": [("JudgeLoader.tla", "JudgeLoader.cfg", files)], "tlc": tlc, "records": {"S": n},
             "explanation": "(1) TLC explores every interleaving of the PlusCal model OdmlLoader (table accesses, thread create/start/join, include recursion) for the listed "
